@@ -877,6 +877,8 @@ int main(int argc, char **argv)
 				else if (!strcmp(c, "noeventfd2")) cfg_noeventfd2 = 1;
 				else if (!strcmp(c, "noeventfd")) cfg_noeventfd = 1;
 				else if (!strcmp(c, "noepollcreate1")) cfg_noepollcreate1 = 1;
+				else if (!strcmp(c, "eventfd-emfile")) fail_eventfd_errno = EMFILE;
+				else if (!strcmp(c, "pipe-emfile")) fail_pipe = 1;
 				else if (!strncmp(c, "eintr=", 6)) { if (neintr < 64) eintr_at[neintr++] = atoi(c + 6); }
 				else if (!strncmp(c, "waitlimit=", 10)) wait_limit = atoi(c + 10);
 				else if (!strncmp(c, "cblimit=", 8)) cb_limit = atoi(c + 8);
